@@ -2,7 +2,7 @@ SPECIFICATION Spec
 CONSTANTS
   Acc = {"a1", "a2"}
   Null = "0"
-  Kinds <- K3
+  Kinds <- K2
   BatchSize = 3
   MaxBlocks = 4
   MaxXfers = 8
